@@ -6,9 +6,10 @@ obtain is decided by TLC from spec/Derive.tla on the recorded events (spec/Trace
 import random
 
 BASIC = ["u8", "str", "bytes", "cu", "bstr", "bslice", "bu8"]
-NESTED_TYS = ["inA", "inM", "e2", "e2x", "e2u", "io", "iox", "e2m", "e2mu", "e2a", "e2au"]
+NESTED_TYS = ["inA", "inM", "e2", "e2x", "e2u", "io", "iox", "e2m", "e2mu", "e2a", "e2au", "eu", "eux"]
 TAGS = [0, 7, 23, 24, 255, 256, 65535, 65536, -2, -3]      # -2 / -3: 2^32 and 2^64 - 1 (spec/Derive.tla!TagNum)
-COMPAT = {"e2": ["e2x", "e2u"], "e2x": ["e2"], "e2u": ["e2"], "io": ["iox"], "iox": ["io"], "e2m": ["e2mu"], "e2mu": ["e2m"], "e2a": ["e2au"], "e2au": ["e2a"]}
+COD_TYS = ["pcd", "pce", "pcb", "pcw"]
+COMPAT = {"e2": ["e2x", "e2u"], "e2x": ["e2"], "e2u": ["e2"], "io": ["iox"], "iox": ["io"], "e2m": ["e2mu"], "e2mu": ["e2m"], "e2a": ["e2au"], "e2au": ["e2a"], "eu": ["eux"], "eux": ["eu"]}
 
 
 def fv(some=True, n=0, b=(), sub=()):
@@ -45,8 +46,12 @@ def vals_t(ty, rng):
         return fv(sub=rng.choice([{"var": 1, "fv": [rng.choice([NONE, fv(n=3)]), rng.choice([NONE, fv(b=b"x")])]}, tup]))
     if ty == "e2au":
         return fv(sub=rng.choice([{"var": 1, "fv": [rng.choice([NONE, fv(n=3)])]}, tup]))
-    if ty == "io":
+    if ty in ("io", "eu"):
         return fv(sub={"var": rng.choice([1, 2]), "fv": []})
+    if ty == "eux":
+        return fv(sub=rng.choice([{"var": 1, "fv": []}, {"var": 3, "fv": []}, {"var": 4, "fv": [fv(n=rng.choice([9, 0, 255]))]}]))
+    if ty in COD_TYS:
+        return fv(n=rng.choice([0, 7, 23, 24, 255]))
     if ty == "iox":
         return fv(sub={"var": rng.choice([1, 2, 3]), "fv": []})
     raise ValueError(ty)
@@ -60,6 +65,9 @@ def rand_field(idx, rng, allow_skip=True, nested=True):
     if not opt and ty == "str" and rng.random() < 0.15:
         ty = rng.choice(["cowb", "cown", "cowbu8"])
     tag = rng.choice(TAGS) if rng.random() < 0.25 else -1
+    if rng.random() < 0.06:
+        sp = rng.choice(["plain", "boxed", "alias"])
+        return {"idx": idx, "opt": sp == "plain", "tag": tag, "ty": rng.choice(COD_TYS), "skip": False, "osp": sp}
     osp = "plain"
     if opt and ty in ("u8", "str") and rng.random() < 0.3:
         osp = rng.choice(["boxed", "alias", "generic"])
@@ -116,7 +124,7 @@ def rand_value_fields(fields, rng):
             out.append(fv())
         elif f["ty"] == "cu":
             out.append(fv(n=255) if f["opt"] and rng.random() < 0.4 else vals_t("cu", rng))
-        elif f["opt"] and rng.random() < 0.45:
+        elif (f["opt"] or f["ty"] in COD_TYS) and rng.random() < 0.45:
             out.append(NONE)
         else:
             out.append(vals_t(f["ty"], rng))
@@ -151,9 +159,11 @@ def compatible_reader(s, rng):
             f["opt"] = True
             if f["ty"] == "cu":                      # (what a user-written codec does with the null of a gap is the user's business)
                 f["ty"] = "u8"
+            if f["ty"] in COD_TYS:                   # (optional only when spelled Option)
+                f["osp"] = "plain"
             if f["osp"] == "generic" and r["shape"] == "tuple":
                 f["osp"] = "boxed"
-            if f["ty"] not in ("u8", "str"):
+            if f["ty"] not in ("u8", "str") and f["ty"] not in COD_TYS:
                 f["osp"] = "plain"
             fs.append(f)
             fs.sort(key=lambda x: x["idx"])
